@@ -6,9 +6,12 @@ import (
 	"fmt"
 	"os"
 	"path/filepath"
+	"regexp"
+	"runtime"
 	"runtime/debug"
 	"strings"
 	"testing"
+	"time"
 
 	"pgregory.net/rapid"
 
@@ -151,6 +154,7 @@ func failCase(t *rapid.T, v *Violation) {
 // safeRun executes Run and converts an uncaught panic (e.g. in a deferred
 // Close of the code under test) into a violation with a stable signature.
 func safeRun[C any](c Check[C], cs C) (v *Violation) {
+	defer watchLocks(c.Property, c.Stage, cs)()
 	defer func() {
 		if r := recover(); r != nil {
 			st := debug.Stack()
@@ -161,6 +165,64 @@ func safeRun[C any](c Check[C], cs C) (v *Violation) {
 		}
 	}()
 	return c.Run(cs)
+}
+
+// watchLocks guards a case against lock leaks in the code under test, which show as a hang and
+// not as a wrong answer. While the case runs, a watchdog looks at the goroutine dump every 20 s;
+// a goroutine that the runtime reports as blocked for at least one minute in a sync.Mutex /
+// sync.RWMutex acquisition called from zapx code is a lock that was never released (no zapx
+// operation holds a lock that long). That is reported as a violation of the running case and
+// the process exits - the stuck goroutine cannot be recovered, so there is no shrinking. A case
+// that is merely slow is left to the driver's stage timeout (cannot decide).
+func watchLocks(prop, stage string, cs any) (stop func()) {
+	done := make(chan struct{})
+	go func() {
+		tick := time.NewTicker(20 * time.Second)
+		defer tick.Stop()
+		for {
+			select {
+			case <-done:
+				return
+			case <-tick.C:
+			}
+			if g := leakedLockGoroutine(); g != "" {
+				v := &Violation{Property: prop, Signature: "deadlock/lock-never-released", Message: "a goroutine has been blocked for over a minute acquiring a lock inside the code under test (a lock was taken and never released):\n" + g}
+				path := writeReplay(prop, stage, cs, v)
+				fmt.Printf("VIOLATION-DETAIL property=%s stage=%s signature=%s replay=%s\n%s\n", prop, stage, v.Signature, path, v.Message)
+				os.Exit(1)
+			}
+		}
+	}()
+	return func() { close(done) }
+}
+
+var blockedOnLock = regexp.MustCompile(`^goroutine \d+ \[(sync\.Mutex\.Lock|sync\.RWMutex\.RLock|sync\.RWMutex\.Lock|semacquire), (\d+) minutes\]`)
+
+// leakedLockGoroutine returns the stack of a goroutine blocked >= 1 minute on a lock taken in zapx code ("" if none).
+func leakedLockGoroutine() string {
+	buf := make([]byte, 4<<20)
+	buf = buf[:runtime.Stack(buf, true)]
+	for _, g := range strings.Split(string(buf), "\n\n") {
+		first, _, _ := strings.Cut(g, "\n")
+		if !blockedOnLock.MatchString(first) {
+			continue
+		}
+		lines := strings.Split(g, "\n")
+		// the frames right above the sync package must belong to zapx
+		for i, l := range lines {
+			if strings.HasPrefix(l, "sync.(*") || strings.HasPrefix(l, "sync.runtime_") || strings.HasPrefix(l, "\t") || i == 0 {
+				continue
+			}
+			if strings.HasPrefix(l, "github.com/blevesearch/zapx/v16.") {
+				if len(g) > 3000 {
+					g = g[:3000]
+				}
+				return g
+			}
+			break
+		}
+	}
+	return ""
 }
 
 // Rapid runs the check under rapid and writes the collector.
